@@ -49,7 +49,41 @@ def extract(repo):
     f = find_function(s, r"Boxed_Value\s+internal_eval_file\s*\(\s*const\s+std::string\s*&\s*t_filename\s*\)\s*\{")
     b = norm(s[f[1]:f[2]])
     out["internal_eval_file_shape"] = ("return do_eval(load_file(appendedpath), appendedpath, true);" in b and "catch (const exception::file_not_found_error &) { }" in b.replace("{ }", "{ }"))
+    # the public evaluation wrappers of the engine (eval / eval_file / operator(), all overloads): which of their named parameters the body never mentions
+    wr = []
+    for m in re.finditer(r"\b(eval|eval_file|operator\s*\(\s*\))\s*\(([^(){};]*(?:\([^()]*\)[^(){};]*)*)\)\s*(const)?\s*(noexcept)?\s*\{", s):
+        name = re.sub(r"\s+", "", m.group(1))
+        params = []
+        for part in split_top(m.group(2)):
+            part = part.split("=")[0].strip()
+            pm = re.search(r"([A-Za-z_]\w*)\s*$", part)
+            if part and pm and pm.group(1) not in ("void",):
+                params.append(pm.group(1))
+        o = m.end() - 1
+        body = s[o + 1:match_close(s, o)]
+        unused = [q for q in params if not re.search(r"\b" + re.escape(q) + r"\b", body)]
+        wr.append({"fn": name, "params": params, "unused": unused})
+    if len(wr) < 6:
+        raise Unrecognised("only %d eval / eval_file / operator() definitions recognised" % len(wr))
+    out["wrappers"] = wr
     return out
+
+
+def split_top(text):
+    parts, depth, cur = [], 0, ""
+    for ch in text:
+        if ch in "(<[":
+            depth += 1
+        elif ch in ")>]":
+            depth -= 1
+        if ch == "," and depth == 0:
+            parts.append(cur)
+            cur = ""
+        else:
+            cur += ch
+    if cur.strip():
+        parts.append(cur)
+    return parts
 
 
 def to_lean(x):
@@ -64,6 +98,10 @@ def to_lean(x):
          "def useHoldsUseMutex : Bool := " + lean_bool(u["locks"]),
          "def useCheckEvalInsert : Bool := " + lean_bool(u["check_then_eval_then_insert"]),
          "def useRethrowsNested : Bool := " + lean_bool(u["rethrow_nested"]),
+         "", "/-- (function, its named parameters, those the body never mentions) for every definition of eval / eval_file / operator() in chaiscript_engine.hpp -/",
+         "def engineWrappers : List (String × List String × List String) := [",
+         ",\n".join("  (%s, [%s], [%s])" % (lean_str(w["fn"]), ", ".join(lean_str(q) for q in w["params"]), ", ".join(lean_str(q) for q in w["unused"])) for w in x["wrappers"]),
+         "]",
          "end ChaiVerif.Gen"]
     return "\n".join(L) + "\n"
 
